@@ -135,7 +135,10 @@ def decide(pid, tier, seed):
     src = os.path.join(scratch, "src")
     fh = common.fn_hashes(src if os.path.isdir(src) else common.REPO, spec.get("functions", []))
     queries = sum(int(o.get("cbmc_properties") or o.get("queries") or 0) for o in obls)
-    distinct = sum(int(o.get("user_asserts") or o.get("queries") or 0) for o in discharged)
+    # distinct, non-trivial solver-decided cases: harness-level assertions + reachability covers (Kani),
+    # obligation queries (SMT) – counted only in discharged obligations
+    distinct = sum(int(o.get("user_asserts") or 0) + len(o.get("covers") or []) if o.get("engine") == "kani"
+                   else int(o.get("queries") or 0) for o in discharged)
     samples = []
     for o in obls[:40]:
         samples.append({k: o.get(k) for k in ("id", "engine", "status", "doc", "bounds", "time_s", "solver_s",
@@ -146,7 +149,7 @@ def decide(pid, tier, seed):
         "distinct_nontrivial": distinct,
         "rule": "one evaluation = one solver-decided verification condition (CBMC property incl. Kani's automatic "
                 "overflow/bounds/pointer checks, or one SMT query); distinct_nontrivial counts only the harness-level "
-                "assertions / SMT obligations that state the property (automatic checks excluded), in discharged harnesses",
+                "assertions and reachability covers (Kani) resp. the obligation queries (SMT) that state the property – automatic checks excluded – in discharged obligations",
         "samples": samples,
         "obligations": len(obls),
         "discharged": len(discharged),
